@@ -9,7 +9,44 @@ theorem parseInt_dec' (T : Txt) (h : DecLaws T) (signed : Bool) (w n : Nat)
   unfold parseInt
   split
   · next ds heq => exact absurd heq (h.dec_nosign n ds)
+  · next ds heq => exact absurd heq (h.dec_noplus n ds)
   · simp [h.undec_dec, hn]
+
+/-- NUMBER branch (jsoniter) on the marshaler's decimal text -/
+theorem parseNum_dec' (T : Txt) (h : DecLaws T) (signed : Bool) (w n : Nat) (hw : 0 < w)
+    (hn : n < (if signed then 2 ^ (w - 1) else 2 ^ w)) : parseNum signed w (T.dec n) = some n := by
+  have hp : 2 ^ w = 2 * 2 ^ (w - 1) := by
+    cases w with
+    | zero => omega
+    | succ k => simp [Nat.pow_succ]; omega
+  have hlt : n < 2 ^ w := by cases signed <;> simp at hn <;> omega
+  unfold parseNum
+  split
+  · next ds heq => exact absurd heq (h.dec_nosign n ds)
+  · rw [h.jnum_dec w n hlt]
+    cases signed
+    · simp
+    · simp only [if_true] at hn
+      have : ¬ (n ≥ 2 ^ (w - 1)) := by omega
+      simp [this]
+
+theorem parseNum_sdec (T : Txt) (h : DecLaws T) (w n : Nat) (hw : 0 < w) (hn : n < 2 ^ w) :
+    parseNum true w (sdec T w n) = some n := by
+  have hp : 2 ^ w = 2 * 2 ^ (w - 1) := by
+    cases w with
+    | zero => omega
+    | succ k => simp [Nat.pow_succ]; omega
+  unfold sdec
+  split
+  · next hlt => exact parseNum_dec' T h true w n hw (by simpa using hlt)
+  · next hge =>
+    have h1 : 2 ^ w - n < 2 ^ w := by omega
+    simp only [parseNum, Bool.not_true, Bool.false_eq_true, if_false, h.jnum_dec w _ h1]
+    have h2 : ¬ (2 ^ w - n > 2 ^ (w - 1)) := by omega
+    simp only [h2, if_false]
+    congr 1
+    have : 2 ^ w - (2 ^ w - n) = n := by omega
+    rw [this]; exact Nat.mod_eq_of_lt hn
 
 theorem parseInt_sdec (T : Txt) (h : DecLaws T) (w n : Nat) (hw : 0 < w) (hn : n < 2 ^ w) :
     parseInt T true w (sdec T w n) = some n := by
@@ -41,11 +78,11 @@ theorem readLeaf_leafJson (S : Schema) (T : Txt) (h : TxtLaws T) (ty : Ty) (v : 
     case fixed64 => simp [parseInt_dec' T hd false 64 n (by simpa using hs)]
     case i64 => simp [parseInt_sdec T hd 64 n (by omega) hs]
     case sfixed64 => simp [parseInt_sdec T hd 64 n (by omega) hs]
-    case u32 => simp [parseInt_dec' T hd false 32 n (by simpa using hs)]
-    case fixed32 => simp [parseInt_dec' T hd false 32 n (by simpa using hs)]
-    case i32 => simp [parseInt_sdec T hd 32 n (by omega) hs]
-    case s32 => simp [parseInt_sdec T hd 32 n (by omega) hs]
-    case enum e => simp [parseInt_sdec T hd 32 n (by omega) hs]
+    case u32 => simp [parseNum_dec' T hd false 32 n (by omega) (by simpa using hs)]
+    case fixed32 => simp [parseNum_dec' T hd false 32 n (by omega) (by simpa using hs)]
+    case i32 => simp [parseNum_sdec T hd 32 n (by omega) hs]
+    case s32 => simp [parseNum_sdec T hd 32 n (by omega) hs]
+    case enum e => simp [parseNum_sdec T hd 32 n (by omega) hs]
     case bool =>
       have : n = 0 ∨ n = 1 := by omega
       rcases this with h0 | h1
